@@ -635,9 +635,18 @@ class ExcelCompiler:
 
         # 5) remove unneeded cells, that is those not needed for an output
         processed_cells.update(addr.address for addr in output_addrs)
+        needed_cells.intersection_update(processed_cells)
+
+        # the inputs stay, also those no output uses, so that they can be set
+        for addr in input_addrs:
+            input_cell = self.cell_map.get(addr)
+            if input_cell is not None:
+                needed_cells.add(addr)
+                if isinstance(input_cell, _CellRange):
+                    needed_cells.update(a.address for a in input_cell)
+
         cells_to_remove = tuple(addr for addr in self.cell_map
-                                if addr not in needed_cells or
-                                addr not in processed_cells)
+                                if addr not in needed_cells)
         for addr in cells_to_remove:
             del self.cell_map[addr]
 
